@@ -8,10 +8,13 @@ CONSTANTS N,          \* objects o1..oN
           Intervals,  \* initial intervals (0 = not enabled)
           Scripts,    \* per-object heart_beat scripts
           Steps,      \* number of tick / top-level steps after the configuration
-          TopOps      \* top-level operations between ticks
+          TopOps,     \* top-level operations between ticks
+          Sim         \* TRUE under -simulate: one random successor per step
 
 VARIABLES hist, k
 vars == <<hist, k>>
+
+Pick(S) == IF Sim THEN (IF S = {} THEN {} ELSE {RandomElement(S)}) ELSE S
 
 Init == hist = <<>> /\ k = 0
 
@@ -20,10 +23,12 @@ Step == [a : {"tick"}] \cup [a : {"top"}, op : TopOps]
 
 Next ==
   \/ /\ k < N
-     /\ \E c \in Cfg : hist' = Append(hist, c) /\ k' = k + 1
+     /\ \E c \in Pick(Cfg) : hist' = Append(hist, c) /\ k' = k + 1
   \/ /\ k >= N /\ k < N + Steps
-     /\ \E s \in Step : /\ (s.a = "top" => (k > N => hist[Len(hist)].a = "tick"))
+     /\ \E s \in Pick({x \in Step : x.a = "top" => (k > N => hist[Len(hist)].a = "tick")}) :
+                       /\ TRUE
                        /\ hist' = Append(hist, s) /\ k' = k + 1
+  \/ k >= N + Steps /\ UNCHANGED vars      \* keeps -simulate traces alive to their depth
 
 Spec == Init /\ [][Next]_vars
 Emit == (k = N + Steps /\ \E i \in 1 .. Len(hist) : hist[i].a = "tick") => PrintT(<<"@@B", ToJson(hist)>>)
